@@ -270,9 +270,14 @@ def build_model(spec):
     if k == "polynomial":
         return M.PolynomialModel(degree=len(spec["coeffs"]) - 1, prefix=spec["prefix"])
     left, right = build_model(spec["left"]), build_model(spec["right"])
-    if spec.get("via_add"):
-        return left + right
-    return M.CompositeModel(left, right, prefix=spec["prefix"])
+    # two models can be added (ValueError for clashing parameter names is the documented refusal and is
+    # left to the caller; "unsupported operand" is not)
+    try:
+        if spec.get("via_add"):
+            return left + right
+        return M.CompositeModel(left, right, prefix=spec["prefix"])
+    except TypeError as e:
+        raise Violation("unexpected-exception:TypeError", f"{type(left).__name__} + {type(right).__name__}: {e}") from e
 
 
 def param_table(spec, yunit=None):
